@@ -164,7 +164,7 @@ Print Assumptions C14_model_ok.
 (* ---------- non-vacuity ---------- *)
 
 Definition ex_su : setup :=
-  mkSetup 60 100000000000000000 [(1, 100000000000000000); (2, 0)] [(1, 1000); (2, 1000); (3, 0)] [1; 2] 1571797419879305533.
+  mkSetup 60 100000000000000000 [(1, 100000000000000000); (2, 0)] [(1, 1000); (2, 1000); (3, 0)] [1; 2] 1571797419879305533 USTAKE XDEN.
 (* two delegators on two validators, a partial undelegation, a fractional slash, an advance short of
    maturity, a second undelegation, a redelegation *)
 Definition ex_ops : list op :=
@@ -209,7 +209,7 @@ Qed.
 Definition ex_ops2 : list op :=
   ex_ops ++ [Undelegate 1 1 50 true; Delegate 1 9 1 true; Delegate 2 2 500 true; Advance 1000000000; Advance 31536000000000000;
              Withdraw 2 2; SetWithdraw 2 (Some 3); Slash 1 D18; Withdraw 2 2].
-Definition ex_m0 : snap := Eval vm_compute in match model_snap ex_su ex_w0 with SOk m => m | _ => mkSnap [] [] [] [] 0 0 end.
+Definition ex_m0 : snap := Eval vm_compute in match model_snap ex_su ex_w0 with SOk m => m | _ => mkSnap [] [] [] [] 0 0 [] [] end.
 Definition ex_run2 : list (oc * snap * world) := Eval vm_compute in model_run ex_su ex_w0 ex_m0 ex_ops2.
 Example ex_run2_eq : model_run ex_su ex_w0 ex_m0 ex_ops2 = ex_run2. Proof. vm_compute. reflexivity. Qed.
 Example ex_model_ok_hyps :
